@@ -4,7 +4,9 @@ Two families of cases.
 
 kind 'script' (the default; a case without 'kind'): whole runs of ScriptProcess tables dominated by queue operations
 (also issued from inside handlers).  Tie B: co-execution against Model/Kernel.v.  D: an independent reference queue
-(sorted list) run in lock-step over the observation stream.
+(sorted list) run in lock-step over the observation stream: ids sequential, un-post / query / nextPendingEventTime results,
+a post is refused only when it lies in the past, every posted handler is the reference head, order, end-of-run clauses
+(stochastic: nothing live due before TIME; synchronous: nothing live that the last executed step had to fire).
 
 kind 'shipped': whole runs of the shipped processes that are built on posted events - SIR_FixedRecovery and
 SIS_FixedRecovery (bare, as a named instance, two named instances in a ProcessSequence on one network, each with a
@@ -443,8 +445,10 @@ class H(Harness):
     QUICK_N = 900
     THOROUGH_N = 9000
     RULE = ('two families, interleaved 2:1. (script, two thirds; tie B + D) random ScriptProcess tables dominated by queue operations: post '
-            '(incl. zero delay and times preceding queued events), post repeating, un-post (fatal and non-fatal, also of the current head and '
-            'of fired ids), query, post into the past, all also issued from inside handlers of posted and of stochastic events; both dynamics '
+            '(incl. zero delay and times preceding queued events), post repeating, un-post (fatal=True, fatal=False and the plain call '
+            'unpostEvent(id) that leaves the default to decide, through Process and through Dynamics; also of the current head and '
+            'of fired ids), query, Dynamics.nextPendingEventTime() (D only: left out of the Coq rendering), post into the past, all also '
+            'issued from inside handlers of posted and of stochastic events; both dynamics '
             '(stochastic incl. tables with no stochastic events: the a == 0 branch drains the queue); a quarter preceded by another run on the '
             'same experiment object; non-trivial = at least 3 posted events fired and at least one un-post or equal-time tie; distinct by '
             '(table, dynamics, seed). (shipped, one third; D only, not sent to Coq) whole runs under StochasticDynamics and SynchronousDynamics '
@@ -472,8 +476,11 @@ class H(Harness):
                    'what D establishes is the property on the observed runs, not for all runs',
                    'shipped family, repeating events: D identifies the library\'s re-post as the post made inside the firing of a repetition but '
                    'outside the user\'s function, and compares repetition times with t0 + k*dt at relative 1e-9 (generated intervals are dyadic)',
-                   'the end-of-run clause is demanded under stochastic dynamics only; under both dynamics every return of runPendingEvents(b) '
-                   'must leave no live event due at or before b',
+                   'the end-of-run clause of the property text is demanded under stochastic dynamics only; under both dynamics every return of '
+                   'runPendingEvents(b) must leave no live event due at or before b (shipped family: seen by the spy; script family under '
+                   'synchronous dynamics: at the end of the run nothing may be live that is due before the last executed step TIME - 1, or '
+                   'due exactly then and queued before that step\'s tranche was drawn - an event posted with zero delay by a tranche '
+                   'handler of the last step legitimately stays queued)',
                    'a run (of either family) in which runPendingEvents is called thousands of times is cut short by the harness and judged on '
                    'the log so far (script family: reported as run-does-not-terminate); a script run that raised is reported by D and not '
                    'sent to Coq (never the case on the pinned tree)']
@@ -483,7 +490,7 @@ class H(Harness):
         r_script = random.Random(rnd.getrandbits(64))
         r_ship = random.Random(rnd.getrandbits(64))
         out = []
-        allow = ['post', 'post', 'post', 'unpost', 'unpost', 'query', 'postpast', 'ldiscardself']
+        allow = ['post', 'post', 'post', 'unpost', 'unpost', 'query', 'postpast', 'ldiscardself', 'peek']
         i = k = 0
         for pos in range(n):
             if pos % 3 == 1:
@@ -543,16 +550,18 @@ class H(Harness):
         ref = RefQueue()
         pending_rep = None      # (t, prog, e, ddt) to re-post when the current posted handler's tap arrives
         fired = []
-        for o in obs['obs']:
+        posted_at = {}          # reference id -> position in the observation stream at which it was queued
+        for idx, o in enumerate(obs['obs']):
             k = o[0]
             if k == 'posted':
                 _, i, t, prog, e = o
                 j = ref.post(t, prog, e)
+                posted_at[j] = idx
                 if i != j:
                     v.append({'signature': 'event-id-not-sequential', 'detail': {'returned': i, 'expected': j}})
             elif k == 'postedrep':
                 _, t, ddt, prog, e = o
-                ref.post(t, prog, e, rep=ddt)
+                posted_at[ref.post(t, prog, e, rep=ddt)] = idx
             elif k == 'unpost':
                 _, i, r, fatal = o
                 if i in ref.live:
@@ -560,9 +569,11 @@ class H(Harness):
                         v.append({'signature': 'unpost-wrong-result', 'detail': {'obs': o, 'due': ref.live[i][0]}})
                     del ref.live[i]
                 else:
-                    exp = 'KeyError' if fatal else None
+                    # fatal None: the plain call unpostEvent(id), which raises like fatal=True
+                    exp = None if fatal is False else 'KeyError'
                     if r != exp:
-                        v.append({'signature': 'unpost-of-dead-id-wrong-result', 'detail': {'obs': o, 'expected': exp}})
+                        v.append({'signature': 'unpost-of-dead-id-wrong-result' + (':default' if fatal is None else ''),
+                                  'detail': {'obs': o, 'expected': exp}})
             elif k == 'query':
                 _, i, r = o
                 exp = ref.live[i][0] if i in ref.live else 'KeyError'
@@ -570,6 +581,17 @@ class H(Harness):
                     v.append({'signature': 'query-wrong-result', 'detail': {'obs': o, 'expected': exp}})
             elif k == 'posted-into-past-accepted':
                 v.append({'signature': 'post-into-past-accepted', 'detail': o})
+            elif k == 'valueerror':
+                # ['valueerror', time asked for, clock at the call]: only the past may be refused
+                if len(o) >= 3 and not (o[1] < o[2]):
+                    v.append({'signature': 'post-rejected-though-not-in-the-past', 'detail': {'asked_for': o[1], 'clock': o[2]}})
+            elif k == 'peek':
+                # Dynamics.nextPendingEventTime(): the time of the first live event of the queue, None when there is none
+                h = ref.head()
+                exp = h[1][0] if h is not None else None
+                if o[2] != exp or isinstance(o[2], bool):
+                    v.append({'signature': 'next-pending-event-time-wrong', 'detail': {'obs': o, 'expected': exp,
+                                                                                       'live': sorted(x[0] for x in ref.live.values())[:6]}})
             elif k == 'handler':
                 _, prog, targ, clk, e, member = o
                 if member is None:
@@ -598,7 +620,7 @@ class H(Harness):
             elif k == 'tap':
                 if pending_rep is not None and o[3].startswith('p'):
                     t, prog, e, ddt = pending_rep
-                    ref.post(t + ddt, prog, e, rep=ddt)
+                    posted_at[ref.post(t + ddt, prog, e, rep=ddt)] = idx
                     pending_rep = None
         if any(fired[i] >= fired[i + 1] for i in range(len(fired) - 1)):
             v.append({'signature': 'fired-sequence-not-increasing', 'detail': fired[:20]})
@@ -623,6 +645,17 @@ class H(Harness):
             late = [(j, x) for j, x in ref.live.items() if x[0] < end]
             if late:
                 v.append({'signature': 'due-event-not-fired-by-end', 'detail': {'TIME': end, 'pending': late[:3]}})
+        if end is not None and case['dynamics'] == 'synchronous':
+            # "unless ... the run ends before t": the last executed step is TIME - 1 and its runPendingEvents fires everything
+            # due by then.  What may legitimately stay queued with a time <= TIME - 1 is only an event posted for exactly
+            # TIME - 1 AFTER that call returned, i.e. with zero delay from a tranche handler of the last step (false-alarm
+            # log, entry 2); the harness notes where in the stream each step's tranche was drawn, which is right after it.
+            last = end - 1.0
+            cuts = [tr['obs_index'] for tr in obs.get('tranches', []) if tr['t'] == last]
+            late = [(j, x) for j, x in ref.live.items()
+                    if x[0] < last or (x[0] == last and cuts and posted_at.get(j, len(obs['obs'])) < cuts[-1])]
+            if late:
+                v.append({'signature': 'due-event-not-fired-by-last-step', 'detail': {'TIME': end, 'last_step': last, 'pending': late[:3]}})
         seen = {}
         for x in v:
             seen.setdefault(x['signature'], x)
